@@ -568,8 +568,10 @@ def check_base(chk: harness.Check, name: str, text: str, rng, per_rule: int) -> 
 
 
 def worker(args) -> Dict[str, Any]:
-    argv, shard, n_shards, n_models, per_rule = args
+    argv, shard, n_shards, n_models, per_rule = args[:-1]
+    mins = args[-1]
     chk = harness.Check("C06", "exploration", RULE, argv)
+    chk.set_worker_minimums(mins, n_shards)
     budget = chk.wall_budget(170, 900)
     bases: List[Tuple[str, str]] = []
     if shard == 0:
@@ -585,7 +587,7 @@ def worker(args) -> Dict[str, Any]:
         m = mmgen.generate(chk.rng("model", i), profile)
         bases.append((f"mmg/{chk.seed}/{i}", m.text))
     for idx, (name, text) in enumerate(bases):
-        if chk.elapsed() > budget:
+        if chk.should_stop(budget):
             chk.count("bases_skipped_for_budget", len(bases) - idx)
             break
         check_base(chk, name, text, chk.rng("mut", name), per_rule)
@@ -597,8 +599,11 @@ def main(argv) -> int:
     n_models = chk.pick(36, 700)
     per_rule = chk.pick(1, 2)
     n_shards = 12
+    mins = {
+        "mutations_judged": chk.pick(300, 3000),
+    }
     with concurrent.futures.ProcessPoolExecutor(max_workers=n_shards) as pool:
-        jobs = [pool.submit(worker, (list(argv), s, n_shards, n_models, per_rule)) for s in range(n_shards)]
+        jobs = [pool.submit(worker, (list(argv), s, n_shards, n_models, per_rule, mins)) for s in range(n_shards)]
         for job in jobs:
             try:
                 chk.merge(job.result())
@@ -612,6 +617,7 @@ def main(argv) -> int:
             chk.mark_inconclusive(f"rule {rule_name} exercised only {n} times")
     if len(rules_seen) < 20:
         chk.mark_inconclusive(f"only {len(rules_seen)} rules exercised")
-    chk.require_min("mutations_judged", chk.pick(300, 3000))
     chk.assume("a crash of the front end on a mutated model is not judged here (C01 owns it); only acceptance of a rule-breaking model is a C06 violation")
+    for counter_name, minimum in mins.items():
+        chk.require_min(counter_name, minimum)
     return chk.finish()
